@@ -410,6 +410,11 @@ def monitor_reads(ops, impl, start_ref=None):
         if t[0] in ("reset", "resetfree"):
             ref = RefMap(int(t[4]))
             continue
+        if t[0] == "stress":
+            if l != "ok":
+                bad.append("M1(concurrent): readers racing a writer, the clock and the eviction worker: %s" % l[:160])
+            ref = None          # contents unspecified afterwards
+            continue
         if ref is None:
             continue
         if t[0] == "read":
